@@ -14,11 +14,12 @@ Record obs := {
   o_sent : bytes;               (* everything the client socket accepted *)
   o_hq : list bytes;            (* queued by the handler itself *)
   o_orc : N; o_ocd : list bytes; o_parse : N;
-  o_raised : bool }.            (* an exception escaped handle_events *)
+  o_raised : bool;              (* an exception escaped handle_events *)
+  o_rbuf : option (option bytes) }.   (* request.buffer (None = not compared, as for o_state) *)
 
-Definition mk_obs bf mf rt tn pl st sn hq' oc od pc rs : obs :=
+Definition mk_obs bf mf rt tn pl st sn hq' oc od pc rs rb : obs :=
   {| o_buffer := bf; o_must_flush := mf; o_reads_teared := rt; o_torn := tn; o_plugin := pl;
-     o_state := st; o_sent := sn; o_hq := hq'; o_orc := oc; o_ocd := od; o_parse := pc; o_raised := rs |}.
+     o_state := st; o_sent := sn; o_hq := hq'; o_orc := oc; o_ocd := od; o_parse := pc; o_raised := rs; o_rbuf := rb |}.
 
 Definition escaped (h : handler) : bool :=
   match exc h with
@@ -34,7 +35,8 @@ Definition obs_matches (h : handler) (o : obs) : bool :=
   match o_state o with Some s => state (request h) =? s | None => true end &&
   bytes_eqb (sent h) (o_sent o) && list_eqb bytes_eqb (map fst (hq h)) (o_hq o) &&
   (orc_calls h =? o_orc o) && list_eqb bytes_eqb (ocd h) (o_ocd o) && (parse_calls h =? o_parse o) &&
-  Bool.eqb (escaped h) (o_raised o).
+  Bool.eqb (escaped h) (o_raised o) &&
+  match o_rbuf o with Some b => option_eqb bytes_eqb (Parser.buffer (request h)) b | None => true end.
 
 (* scripted plugin: on_request_complete always ends as told; the i-th on_client_data call ends
    as the i-th script entry (plain return when the script is exhausted) *)
